@@ -63,6 +63,7 @@ def fill_target(v, target):
     if kind == 2:
         sub = odml.Section(name="sub", type="t", parent=target, definition="target sub")
         odml.Property(name="inner", values=[5], parent=sub)
+        odml.Section(type="t", parent=target)        # a child created without a name (named by its id)
     return kind
 
 
@@ -211,7 +212,7 @@ def includes_ob(v):
     linking = v.pick("linking", attached)
     other = odml.Document()
     top = odml.Section(name="top", type="t", parent=other)
-    deep = odml.Section(name="deep", type="t", parent=top)
+    deep = odml.Section(name="deep #1", type="t", parent=top)       # a '#' inside the path part of url#path
     with_path = v.bool("with_path")
     target = v.pick("target", [top, deep]) if with_path else top
     fill_target(v, target)
